@@ -215,8 +215,13 @@ impl<T: CloseValue> Slot<T> {
     ///
     /// Returns a mutable reference to the inner data if its guard didn't panic, or else None
     pub async fn wait_for_data(&mut self) -> &mut Option<T::Closed> {
-        if let Some(rx) = self.rx.take() {
-            self.data = rx.wait_for_value().await;
+        if let Some(rx) = self.rx.as_mut() {
+            // Wait on the receiver in place instead of moving it into this future: if the future is
+            // dropped before the guard closes (for example by a timeout), the receiver has to stay
+            // in the slot. Otherwise the value is lost and `close` finds neither data nor receiver.
+            let value = rx.wait_for_value().await;
+            self.data = value;
+            self.rx = None;
         }
         &mut self.data
     }
@@ -236,8 +241,9 @@ impl<T: CloseValue> CloseValue for Slot<T> {
         match (self.data, self.rx) {
             (Some(data), _) => Some(data),
             (_, Some(rx)) => rx.take_value(),
-            // TODO: refactor to enum to avoid this branch
-            _ => unreachable!("cannot enter this state"),
+            // `wait_for_data` consumed the receiver without getting a value: the guard was
+            // dropped without sending one (it panicked), so the field is omitted
+            (None, None) => None,
         }
     }
 }
@@ -264,8 +270,8 @@ impl<T> Waiting<T> {
     ///
     /// Returns `Some(T)` if the value is received, or `None` if the sender
     /// was dropped without sending a value.
-    async fn wait_for_value(self) -> Option<T> {
-        self.rx.await.ok()
+    async fn wait_for_value(&mut self) -> Option<T> {
+        (&mut self.rx).await.ok()
     }
 }
 
